@@ -315,6 +315,18 @@ def run_case(case, ctx):
         cs = np.asarray(x.val).tolist()
         if cs[1][2] != 3 or cs[0][1] != 3:
             ctx.violation('view', 'x[i][j] = v did not write through to x: %r' % (cs,), key='view')
+        # also through column, strided and reversed selections
+        x2 = Fxp(np.zeros((3, 4)), s, w, nf)
+        x2[:, 1][2] = v
+        col = x2[:, 3]
+        col[0] = v
+        x2[::2][1][0] = v
+        x2[1][::-1][0] = v
+        c2 = np.asarray(x2.val).tolist()
+        want = {(2, 1), (0, 3), (2, 0), (1, 3)}
+        got = {(a, b) for a in range(3) for b in range(4) if c2[a][b] == 3}
+        if got != want:
+            ctx.violation('view', 'chained indexed assignment through column / strided / reversed selections wrote %s, expected %s' % (sorted(got), sorted(want)), key='view')
         ctx.judged(('view', s), True, None)
         ctx.floor_hit(('view',))
         return
